@@ -180,7 +180,7 @@ class G:
 
     def function(self, idx, dfn=False):
         npar = self.r.choice([0, 1, 1, 2, 3])
-        retint = (not dfn) and self.r.random() < 0.6     # defeat functions of the core return nothing
+        retint = self.r.random() < (0.4 if dfn else 0.6)
         name = ('!df%d' if dfn else 'fn%d') % idx
         params = ['%s_a%d' % (name.lstrip('!'), i) for i in range(npar)]
         saved = (self.scopes, self.loopvars, self.in_try, self.in_handler)
